@@ -629,6 +629,7 @@ def run(ctx):
         with common.Lock("ocaml"):
             shutil.copy2(MODEL, os.path.join(tmp, "ffimodel-run"))
         _run(ctx, tmp, nevrun)
+        run_null_results(ctx, lib, tmp)
         t0 = time.time()
         run_sequences(ctx, lib, tmp)
         ctx.coverage.setdefault("timing", {})["sequences_s"] = round(time.time() - t0, 1)
@@ -640,6 +641,111 @@ def run(ctx):
     finally:
         shutil.rmtree(tmp, ignore_errors=True)
     ctx.coverage["wall_s_check"] = round(time.time() - t_start, 1)
+
+
+
+# ------------------------------------------------------------------------------------------
+# NULL `char *` results: a C function may return NULL where the extern says `string` (getenv does); the value
+# arriving in the program is the nil string (== nil, length() raises nil_pointer), in a plain result and in a
+# string field of a returned record; never a crash (fix 1f4ec86).  NULL and non-NULL c_ptr values survive being
+# returned, assigned over each other (also c_null over a live pointer) and passed back; tuples nested in tuples
+# with a record inside (extern parameter and result) are accepted and arrive field by field
+NULL_C = """struct R { char * s; int x; };
+struct Q { int a; char * s; char * t; };
+char * null_str(void) { return 0; }
+char * some_str(void) { return "abc"; }
+struct R null_rec(void) { struct R r = { 0, 5 }; return r; }
+struct Q mixed_rec(void) { struct Q q = { 7, "xy", 0 }; return q; }
+static int cell;
+void * some_ptr(void) { return &cell; }
+void * null_ptr(void) { return 0; }
+int is_null(void * p) { return p == 0; }
+int is_cell(void * p) { return p == (void *)&cell; }
+typedef struct PT { int x; int y; } PT;
+typedef struct T1 { int a; PT p; } T1;
+typedef struct T2 { int k; T1 t; } T2;
+typedef struct T3 { int a; struct { int b; int c; } s; } T3;
+int t1sum(T1 t) { return t.a * 10000 + t.p.x * 100 + t.p.y; }
+int t2sum(T2 n) { return n.k * 1000000 + t1sum(n.t); }
+int t3sum(T3 n) { return n.a * 10000 + n.s.b * 100 + n.s.c; }
+T2 t2make(int k) { T2 n; n.k = k; n.t.a = k + 1; n.t.p.x = k + 2; n.t.p.y = k + 3; return n; }
+"""
+NULL_NEV = """record R { s : string; x : int; }
+record Q { a : int; s : string; t : string; }
+record PT { x : int; y : int; }
+extern "%(lib)s" func null_str() -> string
+extern "%(lib)s" func some_str() -> string
+extern "%(lib)s" func null_rec() -> R
+extern "%(lib)s" func mixed_rec() -> Q
+extern "%(lib)s" func some_ptr() -> c_ptr
+extern "%(lib)s" func null_ptr() -> c_ptr
+extern "%(lib)s" func is_null(p : c_ptr) -> int
+extern "%(lib)s" func is_cell(p : c_ptr) -> int
+extern "%(lib)s" func t1sum(t : (int, PT)) -> int
+extern "%(lib)s" func t2sum(t : (int, (int, PT))) -> int
+extern "%(lib)s" func t3sum(t : (int, (int, int))) -> int
+extern "%(lib)s" func t2make(k : int) -> (int, (int, PT))
+func len(s : string) -> int { length(s) } catch (nil_pointer) { 0 - 1 }
+func main() -> int
+{
+    let s = null_str();
+    let t = some_str();
+    let r = null_rec();
+    let q = mixed_rec();
+    print(len(t)); print(len(s)); print(r.x); print(len(r.s));
+    if (s == nil) { print(1) } else { print(0) };
+    if (t == nil) { print(1) } else { print(0) };
+    print(q.a); print(len(q.s)); print(len(q.t));
+    let again = null_str();
+    print(len(again));
+    var p = c_null;
+    p = some_ptr();
+    print(is_null(p) * 10 + is_cell(p));
+    p = c_null;
+    print(is_null(p) * 10 + is_cell(p));
+    var w = c_null;
+    w = null_ptr();
+    print(is_null(w) * 10 + is_cell(w));
+    w = some_ptr();
+    print(is_null(w) * 10 + is_cell(w));
+    w = p;
+    print(is_null(w) * 10 + is_cell(w));
+    let t1 = (7, PT(3, 4)) : (int, PT);
+    let t2 = (9, (7, PT(3, 4)) : (int, PT)) : (int, (int, PT));
+    let t3 = (5, (6, 7) : (int, int)) : (int, (int, int));
+    print(t1sum(t1)); print(t2sum(t2)); print(t3sum(t3)); print(t2sum(t2make(2)));
+    0
+}
+"""
+NULL_EXPECT = ["3", "-1", "5", "-1", "1", "0", "7", "2", "-1", "-1", "1", "10", "10", "1", "10", "70304", "9070304", "50607", "2030405"]
+
+
+def run_null_results(ctx, lib, tmp):
+    d = os.path.join(tmp, "nullres")
+    os.makedirs(d, exist_ok=True)
+    so_path = os.path.join(d, "libnullres.so")
+    with open(os.path.join(d, "nullres.c"), "w") as f:
+        f.write(NULL_C)
+    rc, so, se = common.sh(["gcc", "-O0", "-w", "-shared", "-fPIC", "-o", so_path, os.path.join(d, "nullres.c")], timeout=120)
+    if rc != 0:
+        raise common.BuildError("null-result callee failed to build: " + se[-1000:])
+    src = NULL_NEV % {"lib": so_path}
+    prog = os.path.join(d, "nullres.nev")
+    with open(prog, "w") as f:
+        f.write(src)
+    env = dict(os.environ)
+    env["ASAN_OPTIONS"] = "detect_leaks=1:abort_on_error=0:allocator_may_return_null=1"
+    rc, so, se = common.sh([os.path.join(lib, "never"), "-f", prog], timeout=120, env=env, cwd=d)
+    got = [l.strip() for l in so.replace("\r", "").splitlines() if l.strip()]
+    ctx.count(evaluations=len(NULL_EXPECT), nontrivial=4)
+    ctx.coverage["null_string_results"] = {"expected": NULL_EXPECT, "observed": got[:20], "status": rc}
+    if got != NULL_EXPECT or rc != 0:
+        ctx.violation("null-string-result",
+                      "a foreign function returning a NULL char * (plain result / string field of a returned record): expected "
+                      "the nil string (prints %s, status 0), observed %s, status %d %s"
+                      % (" ".join(NULL_EXPECT), " ".join(got[:12]) or "<nothing>", rc, se[-300:].replace("\n", " | ")),
+                      {"callee.c": NULL_C, "program": src, "observed": got, "status": rc, "stderr": se[-1500:],
+                       "replay_how": "gcc -shared -fPIC -o libnullres.so callee.c; put its absolute path in the extern lines; never -f program"})
 
 
 def _run(ctx, tmp, nevrun):
